@@ -28,6 +28,51 @@ func hC02UnmarshalProofValue(vp vc.VerifiablePresentation, target interface{}) e
 	panic("hC02UnmarshalProofValue: target type not modelled")
 }
 
+//verif:stub (time.Time).Sub => hC02TimeSub
+
+// hC02TimeSub is time.Time.Sub (go1.23 source, line by line) specialised to instants without a
+// monotonic clock reading (everything decoded from JSON or built with time.Unix; asserted below).
+// Reason: the real Sub calls u.Add(d) with a symbolic d, which rewrites the wall word with bit
+// operations (`wall&^nsecMask | nsec`, `wall&hasMonotonic`) that the engine's integer encoding
+// cannot express; 64-bit bit-vector encoding of the *1e9 and /1e9 in Sub is not decided by z3.
+func hC02TimeSub(t, u time.Time) time.Duration {
+	const nsecMask = 1<<30 - 1
+	const minDuration, maxDuration = time.Duration(-1 << 63), time.Duration(1<<63 - 1)
+	tw, uw := vGetField(&t, "wall").(uint64), vGetField(&u, "wall").(uint64)
+	vAssert(tw < 1<<63 && uw < 1<<63, "H02.time_model: instant with monotonic clock reading reached the Sub model")
+	ts, us := vGetField(&t, "ext").(int64), vGetField(&u, "ext").(int64) // sec()
+	tn, un := int32(tw&nsecMask), int32(uw&nsecMask)                       // nsec()
+	d := time.Duration(ts-us)*time.Second + time.Duration(tn-un)
+	// u.Add(d)
+	dsec := int64(d / 1e9)
+	nsec := un + int32(d%1e9)
+	if nsec >= 1e9 {
+		dsec++
+		nsec -= 1e9
+	} else if nsec < 0 {
+		dsec--
+		nsec += 1e9
+	}
+	// addSec(dsec)
+	var asec int64
+	sum := us + dsec
+	if (sum > us) == (dsec > 0) {
+		asec = sum
+	} else if dsec > 0 {
+		asec = 1<<63 - 1
+	} else {
+		asec = -(1<<63 - 1)
+	}
+	switch {
+	case asec == ts && nsec == tn: // u.Add(d).Equal(t)
+		return d
+	case ts < us || ts == us && tn < un: // t.Before(u)
+		return minDuration
+	default:
+		return maxDuration
+	}
+}
+
 // Years 0000..9999 are what RFC3339 (time.Time.UnmarshalJSON) can express.
 const (
 	hC02MinUnix = -62167219200 // 0000-01-01T00:00:00Z
